@@ -1,2 +1,60 @@
+(* C02 — Python decode(encode(v)) == v, and re-encoding reproduces the bytes. *)
 From Coq Require Import ZArith List Bool.
-From BP Require Import Bits Schema Spec PyRt.
+From BP Require Import Bits Schema Spec PyRt Eqb PyEncTop PyDecLeaf PyDecProofs PyDecTop.
+Import ListNotations.
+Open Scope Z_scope.
+
+(* encode, decode into a fresh message, compare field by field, re-encode: all four steps
+   succeed (no exception) and agree, for every schema tree and every in-range value.
+   [dec_guard] excludes exactly the known finding enum-default (an enum whose first declared
+   member is not 0), see C02_enum_default_refuted. *)
+Theorem C02_roundtrip : forall t v,
+  PyEncTop.is_msg t = true -> wf (norm t) = true -> dec_guard (norm t) = true ->
+  has_ty (norm t) v = true ->
+  exists b v',
+    py_encode t v = Ok b /\ py_decode t b = Ok v' /\
+    val_sim (norm t) v' v = true /\ py_encode t v' = Ok b.
+Proof. exact roundtrip_all. Qed.
+Print Assumptions C02_roundtrip.
+
+(* the decoder returns exactly the value, fields in schema order *)
+Theorem C02_decode_wire : forall t v,
+  PyEncTop.is_msg t = true -> wf (norm t) = true -> dec_guard (norm t) = true ->
+  has_ty (norm t) v = true ->
+  py_decode t (wire t v) = Ok (canon (norm t) v).
+Proof. exact py_decode_wire. Qed.
+Print Assumptions C02_decode_wire.
+
+(* sign handling for every width: reading back the n low bits of an in-range signed value
+   and sign-extending gives the value *)
+Theorem C02_sign : forall n z,
+  1 <= n -> - 2 ^ (n - 1) <= z < 2 ^ (n - 1) -> sext' n (z mod 2 ^ n) = z.
+Proof. exact sext'_mod. Qed.
+Print Assumptions C02_sign.
+
+(* the excluded region is a genuine defect of the current tree (known finding enum-default) *)
+Theorem C02_enum_default_refuted :
+  exists t v, PyEncTop.is_msg t = true /\ wf (norm t) = true /\ has_ty (norm t) v = true /\
+              dec_guard (norm t) = false /\
+              py_decode t (wire t v) = Ok (VM [(1, VZ 1)]) /\ v = VM [(1, VZ 0)].
+Proof. exact enum_default_refuted. Qed.
+Print Assumptions C02_enum_default_refuted.
+
+(* non-vacuity *)
+Definition ex_t : ty :=
+  TMsg true [ (3, TAlias (TArr true 10 (TUint 3)));
+              (1, TEnum 12 [0; 300; 4095]);
+              (2, TAlias (TInt 13));
+              (5, TMsg true [(2, TInt 64); (1, TBool)]);
+              (7, TArr false 2 TByte);
+              (8, TArr true 2 (TEnum 9 [0; 257]));
+              (9, TInt 32) ].
+Definition ex_v : val :=
+  VM [ (3, VL [VZ 1; VZ 7; VZ 2; VZ 0; VZ 5; VZ 6; VZ 7; VZ 0; VZ 1; VZ 3]); (1, VZ 300); (2, VZ (-171));
+       (5, VM [(2, VZ (-9223372036854775808)); (1, VB true)]); (7, VL [VZ 255; VZ 1]);
+       (8, VL [VZ 257; VZ 0]); (9, VZ (-2)) ].
+Example C02_nonvacuous :
+  PyEncTop.is_msg ex_t = true /\ wf (norm ex_t) = true /\ dec_guard (norm ex_t) = true /\
+  has_ty (norm ex_t) ex_v = true /\
+  res_val_sim (norm ex_t) (py_decode ex_t (wire ex_t ex_v)) (Ok ex_v) = true.
+Proof. vm_compute. repeat split; reflexivity. Qed.
